@@ -99,19 +99,199 @@ Proof.
   - change (stmt_with_semicolon C (VNode C_Return [oembC o] None)) with false. cbv iota.
     change (is_c C C_Compound (VNode C_Return [oembC o] None)) with false. change (is_c C C_If (VNode C_Return [oembC o] None)) with false. cbv iota.
     unfold gbind. cbn [embS] in Hv. rewrite Hv. reflexivity.
-  - unfold gbind. cbn [embS] in Hv. change (stmt_with_semicolon C (VNode C_Break [] None)) with false. cbv iota.
-    change (is_c C C_Compound (VNode C_Break [] None)) with false. change (is_c C C_If (VNode C_Break [] None)) with false. cbv iota. rewrite Hv. reflexivity.
-  - unfold gbind. cbn [embS] in Hv. change (stmt_with_semicolon C (VNode C_Continue [] None)) with false. cbv iota.
-    change (is_c C C_Compound (VNode C_Continue [] None)) with false. change (is_c C C_If (VNode C_Continue [] None)) with false. cbv iota. rewrite Hv. reflexivity.
-  - unfold gbind. cbn [embS] in Hv. change (stmt_with_semicolon C (VNode C_Goto [VStr l] None)) with false. cbv iota.
-    change (is_c C C_Compound (VNode C_Goto [VStr l] None)) with false. change (is_c C C_If (VNode C_Goto [VStr l] None)) with false. cbv iota. rewrite Hv. reflexivity.
-  - unfold gbind. cbn [embS] in Hv. set (N := VNode C_If _ None) in *. change (stmt_with_semicolon C N) with false. cbv iota.
-    change (is_c C C_Compound N) with false. change (is_c C C_If N) with true. cbv iota. rewrite Hv. reflexivity.
-  - unfold gbind. cbn [embS] in Hv. set (N := VNode C_While _ None) in *. change (stmt_with_semicolon C N) with false. cbv iota.
-    change (is_c C C_Compound N) with false. change (is_c C C_If N) with false. cbv iota. rewrite Hv. reflexivity.
-  - unfold gbind. cbn [embS] in Hv. set (N := VNode C_DoWhile _ None) in *. change (stmt_with_semicolon C N) with false. cbv iota.
-    change (is_c C C_Compound N) with false. change (is_c C C_If N) with false. cbv iota. rewrite Hv. reflexivity.
-  - unfold gbind. cbn [embS] in Hv. set (N := VNode C_For _ None) in *. change (stmt_with_semicolon C N) with false. cbv iota.
-    change (is_c C C_Compound N) with false. change (is_c C C_If N) with false. cbv iota. rewrite Hv. reflexivity.
+  - cbn [embS] in Hv. change (stmt_with_semicolon C (VNode C_Break [] None)) with false. cbv iota.
+    change (is_c C C_Compound (VNode C_Break [] None)) with false. change (is_c C C_If (VNode C_Break [] None)) with false. cbv iota. unfold gbind. rewrite Hv. reflexivity.
+  - cbn [embS] in Hv. change (stmt_with_semicolon C (VNode C_Continue [] None)) with false. cbv iota.
+    change (is_c C C_Compound (VNode C_Continue [] None)) with false. change (is_c C C_If (VNode C_Continue [] None)) with false. cbv iota. unfold gbind. rewrite Hv. reflexivity.
+  - cbn [embS] in Hv. change (stmt_with_semicolon C (VNode C_Goto [VStr l] None)) with false. cbv iota.
+    change (is_c C C_Compound (VNode C_Goto [VStr l] None)) with false. change (is_c C C_If (VNode C_Goto [VStr l] None)) with false. cbv iota. unfold gbind. rewrite Hv. reflexivity.
+  - cbn [embS] in Hv. set (N := VNode C_If _ None) in *. change (stmt_with_semicolon C N) with false. cbv iota.
+    change (is_c C C_Compound N) with false. change (is_c C C_If N) with true. cbv iota. unfold gbind. rewrite Hv. reflexivity.
+  - cbn [embS] in Hv. set (N := VNode C_While _ None) in *. change (stmt_with_semicolon C N) with false. cbv iota.
+    change (is_c C C_Compound N) with false. change (is_c C C_If N) with false. cbv iota. unfold gbind. rewrite Hv. reflexivity.
+  - cbn [embS] in Hv. set (N := VNode C_DoWhile _ None) in *. change (stmt_with_semicolon C N) with false. cbv iota.
+    change (is_c C C_Compound N) with false. change (is_c C C_If N) with false. cbv iota. unfold gbind. rewrite Hv. reflexivity.
+  - cbn [embS] in Hv. set (N := VNode C_For _ None) in *. change (stmt_with_semicolon C N) with false. cbv iota.
+    change (is_c C C_Compound N) with false. change (is_c C C_If N) with false. cbv iota. unfold gbind. rewrite Hv. reflexivity.
+Qed.
+Lemma visit_if : forall f c t e co,
+  visit C rp (S f) (VNode C_If [c; t; e] co) =
+  gbind (if truthy_v C c then visit C rp f c else gret []) (fun cs => gbind (generate_stmt C rp f t true) (fun ts =>
+  if truthy_v C e then
+    gbind make_indent (fun i0 => gbind (generate_stmt C rp f e true) (fun es =>
+    gret (s "if (" ++ cs ++ s ")" ++ [10%N] ++ ts ++ i0 ++ s "else" ++ [10%N] ++ es)))
+  else gret (s "if (" ++ cs ++ s ")" ++ [10%N] ++ ts))).
+Proof. reflexivity. Qed.
+Lemma visit_while : forall f c b co,
+  visit C rp (S f) (VNode C_While [c; b] co) =
+  gbind (if truthy_v C c then visit C rp f c else gret []) (fun cs => gbind (generate_stmt C rp f b true) (fun ss =>
+  gret (s "while (" ++ cs ++ s ")" ++ [10%N] ++ ss))).
+Proof. reflexivity. Qed.
+Lemma visit_do : forall f c b co,
+  visit C rp (S f) (VNode C_DoWhile [c; b] co) =
+  gbind (generate_stmt C rp f b true) (fun ss => gbind make_indent (fun i0 =>
+  gbind (if truthy_v C c then visit C rp f c else gret []) (fun cs =>
+  gret (s "do" ++ [10%N] ++ ss ++ i0 ++ s "while (" ++ cs ++ s ");")))).
+Proof. reflexivity. Qed.
+Lemma visit_for : forall f i c n b co,
+  visit C rp (S f) (VNode C_For [i; c; n; b] co) =
+  gbind (if truthy_v C i then visit C rp f i else gret []) (fun is' =>
+  gbind (if truthy_v C c then gbind (visit C rp f c) (fun x => gret (s " " ++ x)) else gret []) (fun cs =>
+  gbind (if truthy_v C n then gbind (visit C rp f n) (fun x => gret (s " " ++ x)) else gret []) (fun ns =>
+  gbind (generate_stmt C rp f b true) (fun ss =>
+  gret (s "for (" ++ is' ++ s ";" ++ cs ++ s ";" ++ ns ++ s ")" ++ [10%N] ++ ss))))).
+Proof. reflexivity. Qed.
+Lemma visit_return : forall f e co,
+  visit C rp (S f) (VNode C_Return [e] co) =
+  if truthy_v C e then gbind (visit C rp f e) (fun x => gret (s "return" ++ s " " ++ x ++ s ";")) else gret (s "return;").
+Proof. reflexivity. Qed.
+
+Lemma truthy_emb : forall e, truthy_v C (embC e) = true.
+Proof. destruct e; reflexivity. Qed.
+Lemma truthy_embS : forall x, truthy_v C (embS x) = true.
+Proof. destruct x; try reflexivity. apply truthy_emb. Qed.
+
+Lemma cost_pos : forall x, 2 <= cost x.
+Proof. destruct x; cbn [cost]; lia. Qed.
+
+Theorem vis_prints : forall n x, ssize x <= n -> swf x -> forall fuel lv, cost x <= fuel -> visit C rp fuel (embS x) lv = GOk (vis lv x, lv).
+Proof.
+  induction n as [|n IH]; intros x Hn Hw fuel lv Hf; [destruct x; cbn in Hn; lia|].
+  assert (HG: forall y f, ssize y <= n -> swf y -> cost y < f -> generate_stmt C rp f (embS y) true lv = GOk (gst lv y, lv)).
+  { intros y f Hy Hwy Hfy. destruct f as [|f]; [lia|]. eapply gs_run; [apply IH; [exact Hy|exact Hwy|lia]|reflexivity]. }
+  assert (HE: forall e f, wf e -> 3 * size e <= f -> visit C rp f (embC e) lv = GOk (ptext e, lv)).
+  { intros e f He Hfe. exact (visit_prints_x C rp (size e) e (le_n _) He f lv Hfe). }
+  destruct x as [e| |o| | |l|c th el|c b|b c|i c nx b]; cbn [ssize] in Hn; cbn [swf] in Hw; cbn [cost] in Hf; cbn [embS].
+  - apply HE; [exact Hw|lia].
+  - destruct fuel as [|fu]; [lia|]. reflexivity.
+  - destruct fuel as [|fu]; [lia|]. rewrite visit_return. destruct o as [e|]; cbn [oembC osize owf] in *; [|reflexivity].
+    rewrite truthy_emb. unfold gbind. rewrite (HE e fu Hw) by lia. reflexivity.
+  - destruct fuel as [|fu]; [lia|]. reflexivity.
+  - destruct fuel as [|fu]; [lia|]. reflexivity.
+  - destruct fuel as [|fu]; [lia|]. reflexivity.
+  - destruct Hw as (Hc & Hth & Hel). destruct fuel as [|fu]; [lia|]. rewrite visit_if. rewrite truthy_emb.
+    unfold gbind at 1. rewrite (HE c fu Hc) by lia. unfold gbind at 1. rewrite (HG th fu) by (try exact Hth; lia).
+    destruct el as [el|].
+    + destruct Hel as (_ & Hwel). rewrite truthy_embS. unfold gbind at 1. unfold make_indent, get_indent. unfold gbind at 1. unfold gret at 1.
+      unfold gbind at 1. rewrite (HG el fu) by (try exact Hwel; lia). reflexivity.
+    + reflexivity.
+  - destruct Hw as (Hc & Hb). destruct fuel as [|fu]; [lia|]. rewrite visit_while. rewrite truthy_emb.
+    unfold gbind at 1. rewrite (HE c fu Hc) by lia. unfold gbind at 1. rewrite (HG b fu) by (try exact Hb; lia). reflexivity.
+  - destruct Hw as (Hb & Hc). destruct fuel as [|fu]; [lia|]. rewrite visit_do.
+    unfold gbind at 1. rewrite (HG b fu) by (try exact Hb; lia). unfold gbind at 1. unfold make_indent, get_indent. unfold gbind at 1. unfold gret at 1.
+    rewrite truthy_emb. unfold gbind at 1. rewrite (HE c fu Hc) by lia. reflexivity.
+  - destruct Hw as (Hi & Hc & Hnx & Hb). destruct fuel as [|fu]; [lia|]. rewrite visit_for.
+    assert (E1: (if truthy_v C (oembC i) then visit C rp fu (oembC i) else gret []) lv = GOk (match i with Some e => ptext e | None => [] end, lv)).
+    { destruct i as [e|]; cbn [oembC osize owf] in *; [rewrite truthy_emb; apply HE; [exact Hi|lia]|reflexivity]. }
+    assert (E2: (if truthy_v C (oembC c) then gbind (visit C rp fu (oembC c)) (fun x => gret (s " " ++ x)) else gret []) lv = GOk (match c with Some e => s " " ++ ptext e | None => [] end, lv)).
+    { destruct c as [e|]; cbn [oembC osize owf] in *; [rewrite truthy_emb; unfold gbind; rewrite (HE e fu Hc) by lia; reflexivity|reflexivity]. }
+    assert (E3: (if truthy_v C (oembC nx) then gbind (visit C rp fu (oembC nx)) (fun x => gret (s " " ++ x)) else gret []) lv = GOk (match nx with Some e => s " " ++ ptext e | None => [] end, lv)).
+    { destruct nx as [e|]; cbn [oembC osize owf] in *; [rewrite truthy_emb; unfold gbind; rewrite (HE e fu Hnx) by lia; reflexivity|reflexivity]. }
+    unfold gbind at 1. rewrite E1. unfold gbind at 1. rewrite E2. unfold gbind at 1. rewrite E3.
+    unfold gbind at 1. rewrite (HG b fu) by (try exact Hb; lia). reflexivity.
+Qed.
+
+(* what _generate_stmt prints for a statement in a sub-statement position *)
+Theorem gst_prints : forall x, swf x -> forall fuel lv, cost x < fuel -> generate_stmt C rp fuel (embS x) true lv = GOk (gst lv x, lv).
+Proof.
+  intros x Hw fuel lv Hf. destruct fuel as [|f]; [lia|]. eapply gs_run; [apply (vis_prints (ssize x) x (le_n _) Hw); lia|reflexivity].
 Qed.
 End GS.
+
+(* ---- the text and the tokens ---- *)
+Definition nn (c: N) : bool := negb (N.eqb c 10).
+Definition despace2 (t: str) : str := filter nn (despace t).
+Lemma despace2_app : forall a b, despace2 (a ++ b) = despace2 a ++ despace2 b.
+Proof. intros a b. unfold despace2. rewrite despace_app. apply filter_app. Qed.
+Lemma despace2_ind : forall lv, despace2 (ind lv) = [].
+Proof. intros lv. unfold ind, despace2, despace. induction (Z.to_nat lv) as [|n IH]; [reflexivity|]. cbn [repeat filter]. exact IH. Qed.
+
+Definition oall (Q: ex -> Prop) (o: option ex) : Prop := match o with Some e => Q e | None => True end.
+Fixpoint sexprs (Q: ex -> Prop) (x: st) : Prop :=
+  match x with
+  | SExpr e => Q e
+  | SReturn o => oall Q o
+  | SGoto l => despace2 l = l
+  | SIf c th el => Q c /\ sexprs Q th /\ match el with Some e => sexprs Q e | None => True end
+  | SWhile c b | SDo b c => Q c /\ sexprs Q b
+  | SFor i c n b => oall Q i /\ oall Q c /\ oall Q n /\ sexprs Q b
+  | _ => True
+  end.
+
+(* an expression whose spellings contain neither blanks nor newlines *)
+Definition eok (rp: bool) (e: ex) : Prop := wf e /\ ids_nb e /\ filter nn (spell (xt rp e)) = spell (xt rp e).
+Lemma eok_text : forall rp e, eok rp e -> despace2 (ptext rp e) = spell (xt rp e).
+Proof. intros rp e (Hw & Hn & Hl). unfold despace2. rewrite (ptext_tokens rp (size e) e (le_n _) Hw Hn). exact Hl. Qed.
+
+Definition vtxt (rp: bool) (lv: Z) (x: st) : str := if isexpr x then vis rp lv x ++ s ";" else vis rp lv x.
+
+Lemma gst_vtxt : forall rp lv x, despace2 (gst rp lv x) = despace2 (vtxt rp lv x).
+Proof.
+  intros rp lv x. unfold gst, vtxt. rewrite despace2_app, despace2_ind. cbn [app].
+  destruct (isexpr x); [rewrite !despace2_app; reflexivity|]. destruct (isif x); [reflexivity|]. rewrite despace2_app. unfold nl. cbn. rewrite app_nil_r. reflexivity.
+Qed.
+
+Definition ot1 (rp: bool) (o: option ex) : str := match o with Some e => ptext rp e | None => [] end.
+Definition ot2 (rp: bool) (o: option ex) : str := match o with Some e => s " " ++ ptext rp e | None => [] end.
+Lemma oall_text : forall rp o, oall (eok rp) o -> despace2 (ot1 rp o) = spell (oxt rp o).
+Proof. intros rp [e|] H; [apply eok_text; exact H|reflexivity]. Qed.
+Lemma oall_text_sp : forall rp o, oall (eok rp) o -> despace2 (ot2 rp o) = spell (oxt rp o).
+Proof. intros rp [e|] H; [unfold ot2; rewrite despace2_app; cbn [oxt]; rewrite (eok_text rp e H); reflexivity|reflexivity]. Qed.
+
+Lemma vis_if0 : forall rp lv c th, vis rp lv (SIf c th None) = s "if (" ++ ptext rp c ++ s ")" ++ nl ++ gst rp lv th.
+Proof. reflexivity. Qed.
+Lemma vis_if1 : forall rp lv c th el, vis rp lv (SIf c th (Some el)) = s "if (" ++ ptext rp c ++ s ")" ++ nl ++ gst rp lv th ++ ind lv ++ s "else" ++ nl ++ gst rp lv el.
+Proof. reflexivity. Qed.
+Lemma vis_while : forall rp lv c b, vis rp lv (SWhile c b) = s "while (" ++ ptext rp c ++ s ")" ++ nl ++ gst rp lv b.
+Proof. reflexivity. Qed.
+Lemma vis_do : forall rp lv b c, vis rp lv (SDo b c) = s "do" ++ nl ++ gst rp lv b ++ ind lv ++ s "while (" ++ ptext rp c ++ s ");".
+Proof. reflexivity. Qed.
+Lemma vis_for : forall rp lv i c n b, vis rp lv (SFor i c n b) =
+  s "for (" ++ ot1 rp i ++ s ";" ++ ot2 rp c ++ s ";" ++ ot2 rp n ++ s ")" ++ nl ++ gst rp lv b.
+Proof. reflexivity. Qed.
+
+Lemma spell_cons : forall k v y, spell ((k, v) :: y) = v ++ spell y.
+Proof. reflexivity. Qed.
+
+(* the generated statement text, blanks and newlines removed, is the concatenation of the spellings of [stoks rp x] *)
+Theorem gst_tokens : forall rp n x, ssize x <= n -> sexprs (eok rp) x -> forall lv, despace2 (vtxt rp lv x) = spell (stoks rp x).
+Proof.
+  intros rp. induction n as [|n IH]; intros x Hn Hx lv; [destruct x; cbn in Hn; lia|].
+  assert (HG: forall y, ssize y <= n -> sexprs (eok rp) y -> despace2 (gst rp lv y) = spell (stoks rp y)).
+  { intros y Hy Hsy. rewrite gst_vtxt. apply IH; assumption. }
+  destruct x as [e| |o| | |l|c th el|c b|b c|i c nx b]; cbn [ssize] in Hn; cbn [sexprs] in Hx; unfold vtxt; cbn [isexpr stoks].
+  - cbn [vis]. rewrite despace2_app, spell_app, (eok_text rp e Hx). reflexivity.
+  - reflexivity.
+  - destruct o as [e|]; cbn [oall oxt vis] in *; [|reflexivity]. rewrite !despace2_app, (eok_text rp e Hx). unfold kw. rewrite spell_cons, spell_app. reflexivity.
+  - reflexivity.
+  - reflexivity.
+  - cbn [vis]. rewrite !despace2_app, Hx. unfold kw. rewrite !spell_cons. reflexivity.
+  - destruct Hx as (Hc & Hth & Hel). unfold kw. rewrite !spell_cons, spell_app, spell_cons. destruct el as [el|].
+    + rewrite vis_if1, !despace2_app, despace2_ind, (eok_text rp c Hc), (HG th ltac:(lia) Hth), (HG el ltac:(lia) Hel). rewrite spell_app, spell_cons. reflexivity.
+    + rewrite vis_if0, !despace2_app, (eok_text rp c Hc), (HG th ltac:(lia) Hth). rewrite app_nil_r. reflexivity.
+  - destruct Hx as (Hc & Hb). unfold kw. rewrite !spell_cons, spell_app, spell_cons. rewrite vis_while, !despace2_app, (eok_text rp c Hc), (HG b ltac:(lia) Hb). reflexivity.
+  - destruct Hx as (Hc & Hb). unfold kw. rewrite !spell_cons, spell_app, !spell_cons, spell_app.
+    rewrite vis_do, !despace2_app, despace2_ind, (eok_text rp c Hc), (HG b ltac:(lia) Hb). reflexivity.
+  - destruct Hx as (Hi & Hc & Hnx & Hb). unfold kw. rewrite !spell_cons, spell_app, spell_cons, spell_app, spell_cons, spell_app, spell_cons.
+    rewrite vis_for, !despace2_app, (oall_text rp i Hi), (oall_text_sp rp c Hc), (oall_text_sp rp nx Hnx), (HG b ltac:(lia) Hb). reflexivity.
+Qed.
+
+(* ---- the theorems apply to something ---- *)
+Definition ex_s : st :=
+  SFor (Some (XAsg (s2l "=") (XId (s2l "i")) (XConst K_INT_CONST_DEC (s2l "0") (s2l "int")))) (Some (XBin (s2l "<") (XId (s2l "i")) (XId (s2l "n")))) (Some (XPost (s2l "++") (XId (s2l "i"))))
+    (SIf (XCall (XId (s2l "f")) [XId (s2l "i")]) (SIf (XId (s2l "a")) (SReturn (Some (XId (s2l "i")))) (Some SBreak)) (Some (SDo (SExpr (XPre (s2l "--") (XId (s2l "n")))) (XId (s2l "n"))))).
+Example statement_example :
+  swf ex_s /\ generate_stmt nat false 60 (embS nat ex_s) true 0%Z =
+    GOk (s2l "  for (i = 0; i < n; i++)
+  if (f(i))
+  if (a)
+  return i;
+else
+  break;
+else
+  do
+  --n;
+while (n);
+
+", 0%Z).
+Proof. split; [cbn; repeat split; solve [reflexivity | discriminate | lia]|vm_compute; reflexivity]. Qed.
